@@ -679,6 +679,40 @@ func scenXfer(r *Run) {
 		}
 		o.MaxVirtual = o.HealAfter + 6*time.Hour
 	}
+	convN := 0 // stratum mismatch-converge: packets of an uninterrupted run after which B must have adopted A's ratio
+	if r.Spec.Stratum == "mismatch-converge" {
+		// C16 at session level, convergence half: A sends with d1/p1, B is configured
+		// with another ratio or without FEC; the path loses, duplicates and reorders
+		// nothing, so B sees one uninterrupted run; after 258+2(d1+p1) packets its
+		// decoder must use A's ratio (hook H1 reads the decoder's effective ratio)
+		const cs = "cfg"
+		t := r.S.Tape
+		o.World.Mismatch = true
+		o.Listen = t.Chance(cs, 500)
+		o.World.FecD, o.World.FecP = 1+t.Choose(cs, 6), 1+t.Choose(cs, 6)
+		switch t.Choose(cs, 4) {
+		case 0:
+			o.World.FecD2, o.World.FecP2 = 0, 0 // FEC at the sender only
+		case 1:
+			o.World.FecD2, o.World.FecP2 = o.World.FecD, o.World.FecP+1
+		case 2:
+			o.World.FecD2, o.World.FecP2 = o.World.FecD+1+t.Choose(cs, 5), o.World.FecP
+		default:
+			o.World.FecD2, o.World.FecP2 = 1+t.Choose(cs, 10), 1+t.Choose(cs, 3)
+			if o.World.FecD2 == o.World.FecD && o.World.FecP2 == o.World.FecP {
+				o.World.FecD2++
+			}
+		}
+		convN = 258 + 2*(o.World.FecD+o.World.FecP)
+		o.Link = LinkCfg{FIFO: true, BaseUs: 100 + t.Skewed(cs, 0, 5000)}
+		o.CfgA = SessCfg{MTU: 300 + t.Choose(cs, 200), SetNoDelay: true, NoDelay: 1, Interval: 10, Resend: 2, NC: 1, SndWnd: 128, RcvWnd: 128}
+		o.CfgB = SessCfg{SndWnd: 128, RcvWnd: 128, SetNoDelay: true, NoDelay: 1, Interval: 10, NC: 1, AckNoDelay: t.Chance(cs, 500)}
+		o.WModeA = IOMode{Kind: 2}
+		o.RModeB = IOMode{Kind: 4}
+		o.BytesAB, o.BytesBA = int64(convN+200)*int64(o.CfgA.MTU), 0
+		o.MaxVirtual = 30 * time.Minute
+		o.MaxSteps = 400000
+	}
 	if r.Spec.Stratum == "mismatch" || r.Spec.Stratum == "mismatch-targeted" {
 		// C16 at session level: the two ends use different FEC ratios (or FEC at one
 		// end only); the stream must stay intact
@@ -799,6 +833,31 @@ func scenXfer(r *Run) {
 	x := NewXfer(r, o)
 	if r.Spec.Prop == "C04" {
 		x.InstallAdmissionOracle()
+	}
+	if convN > 0 {
+		// count the FEC packets of A delivered to B, in the order of arrival
+		seen := 0
+		prev := x.W.Net.OnDeliver
+		x.W.Net.OnDeliver = func(to *SimConn, from string, data []byte) {
+			if prev != nil {
+				prev(to, from, data)
+			}
+			if from == x.A.Local {
+				seen++
+			}
+		}
+		checked := false
+		r.S.Invariants = append(r.S.Invariants, func() {
+			if checked || seen < convN+8 || x.B == nil || x.B.Closed {
+				return
+			}
+			checked = true
+			fi := x.B.Sess.VerifFEC()
+			r.S.Stats.Probe("convergence-checked")
+			if !fi.Present || fi.Data != x.W.FecD || fi.Parity != x.W.FecP {
+				r.S.Fail("C16", "fec-convergence", "session-not-converged", "after an uninterrupted run of %d packets from a %d/%d sender the receiver's decoder (configured %d/%d) is at %d/%d (present=%v)", seen, x.W.FecD, x.W.FecP, x.W.FecD2, x.W.FecP2, fi.Data, fi.Parity, fi.Present)
+			}
+		})
 	}
 	if r.Spec.Stratum == "wrap" {
 		// runs before the writers' first Write (those are events of their own)
